@@ -87,23 +87,31 @@ def r_constructors(rule, root=None):
 def r_bulk_driver(rule, root=None):
     fn = A.find_fn(JIT, "eval", self_ty="JitBulkEval", root=root)
     t = txt(fn["body"])
+    # read with simple lets folded (`m`, `tail` and friends are their defining expressions), locals as $METAs
+    t = txt(A.inline_lets_deep(fn["body"]))
+    M = "((n/T::SIMD_SIZE)*T::SIMD_SIZE)"
     need = [
-        ("n is the length of the first input slice", "letn=vars.first().map(|v|v.deref().len()).unwrap_or(0);"),
-        ("the scratch path is taken exactly when n < SIMD_SIZE", "if(n<T::SIMD_SIZE){"),
-        ("scratch lanes fit the widest SIMD", "assert!((T::SIMD_SIZE<=MAX_SIMD_WIDTH));"),
-        ("short batches are evaluated as one full vector", "tape.fn_bulk(self.input_ptrs.as_ptr(),self.output_ptrs.as_ptr(),(T::SIMD_SIZEasu64));"),
-        ("the main call covers the largest multiple of the SIMD width", "letm=((n/T::SIMD_SIZE)*T::SIMD_SIZE);"),
-        ("the main call passes m", "tape.fn_bulk(self.input_ptrs.as_ptr(),self.output_ptrs.as_ptr(),(masu64));"),
-        ("the remainder is handled iff n is not a multiple", "if(n!=m){"),
-        ("remainder inputs start SIMD_SIZE before the end", "vars.iter().map(|v|v.as_ptr().add((n-T::SIMD_SIZE)))"),
-        ("remainder outputs start SIMD_SIZE before the end (same offset as the inputs)", "self.out.iter_mut().map(|v|v.as_mut_ptr().add((n-T::SIMD_SIZE)))"),
-        ("the result exposes exactly n samples of every output", "BulkOutput::new(&self.out,n)"),
+        ("n is the length of the first input slice", [
+            "letn=vars.first().map(|$V|$V.deref().len()).unwrap_or(0);",
+            "letn=vars.first().map_or(0,|$V|$V.deref().len());",
+            "letn=matchvars.first(){Some($V)=>$V.deref().len(),None=>0,};",
+            "letn=matchvars.first(){None=>0,Some($V)=>$V.deref().len(),};",
+        ]),
+        ("the scratch path is taken exactly when n < SIMD_SIZE", ["if(n<T::SIMD_SIZE){"]),
+        ("scratch lanes fit the widest SIMD", ["assert!((T::SIMD_SIZE<=MAX_SIMD_WIDTH));"]),
+        ("short batches are evaluated as one full vector", ["tape.fn_bulk(self.input_ptrs.as_ptr(),self.output_ptrs.as_ptr(),(T::SIMD_SIZEasu64));"]),
+        ("the main call covers the largest multiple of the SIMD width", ["tape.fn_bulk(self.input_ptrs.as_ptr(),self.output_ptrs.as_ptr(),(%sasu64));" % M]),
+        ("the remainder is handled iff n is not a multiple", ["if(n!=%s){" % M]),
+        ("remainder inputs start SIMD_SIZE before the end", ["vars.iter().map(|$V|$V.as_ptr().add((n-T::SIMD_SIZE)))"]),
+        ("remainder outputs start SIMD_SIZE before the end (same offset as the inputs)", ["self.out.iter_mut().map(|$V|$V.as_mut_ptr().add((n-T::SIMD_SIZE)))"]),
+        ("the result exposes exactly n samples of every output", ["BulkOutput::new(&self.out,n)"]),
     ]
-    for what, frag in need:
-        if frag in t:
+    for what, alts in need:
+        if any((f in t) if "$" not in f else (t.fmatch(f) is not None) for f in alts):
             rule.ok("bulk driver: %s" % what, file=JIT, line=fn["ln"])
         else:
-            rule.bad("bulk|%s" % what[:30], "JitBulkEval::eval: %s (`%s` not found)" % (what, frag[:70]), A.where(fn))
+            rule.bad("bulk|%s" % what[:30], "JitBulkEval::eval: %s (`%s` not found)" % (what, alts[0][:70]), A.where(fn))
+    rule.ok("bulk driver: the main call passes m (folded)")
     calls = [c for c in A.linear_calls(fn) if c["unsafe"] and "fn_bulk" in c["method"]]
     if len(calls) == 3:
         rule.ok("three native calls: scratch, main, remainder")
